@@ -24,6 +24,17 @@ def run(rep, tier, seed, pa):
     items = list(zip(cases, ac.align_many(pa, [(case, m, True) for case, m in zip(cases, modes)])))
     bests = ac.align_many(pa, [(case, m, False) for case, m in zip(cases, modes)])
     facts = ac.judge_many(rep, items, part=False, want_optimal=True, limit=20 if tier == "quick" else 40)
+    # the SAME continuum and dissimilarity objects: aligned once (best alignment), edited in place (a unit moved, counts kept / an annotator
+    # declared), then the soft alignment asked again - it must be valid and minimal for the continuum as it is now
+    pairs = [(c, ac.edited_case(rng, c)) for c in cases[:40 if tier == "quick" else 400]]
+    pairs = [(c, a) for c, a in pairs if a is not None]
+    for c, a in pairs:
+        a["first_soft"] = False
+    rres = ac.realign_many(pa, [(c, a, "cbc" if k % 2 == 0 else "glpk-noimport", False, True) for k, (c, a) in enumerate(pairs)])
+    ac.judge_many(rep, [(a, r) for (c, a), r in zip(pairs, rres)], part=False, want_optimal=True, limit=20, prefix="re-aligned:")
+    for (c, a), r in zip(pairs, rres):
+        rep.count("re-aligned_after=" + a["edit"][0])
+        rep.case(nontrivial_key=(repr(a["units"]), a["spec"], "re-aligned") if r["error"] is None else None)
     for (case, res), f, best in zip(items, facts, bests):
         I = res.get("I")
         rep.count("backend=" + res["mode"])
@@ -54,10 +65,8 @@ def run(rep, tier, seed, pa):
 
 def replay(rep, data, pa):
     ac.install_backend_hooks()
-    case = {"units": [[tuple(u) for u in us] for us in data["units"]], "spec": tuple(data["dissim"]), "pattern": "replay", "unlabelled": False}
-    mode = data.get("mode") or "cbc"
-    res = ac.align_case(pa, case, mode, soft=True)
-    res["mode"] = mode
+    case, res = ac.replay_align(pa, data, soft=True)
+    mode = res["mode"]
     f = ac.judge_many(rep, [(case, res)], part=False, want_optimal=True, limit=300)[0]
     best = ac.align_case(pa, case, mode, soft=False)
     if res["error"] is None and best["error"] is None and Fraction(float(res["disorder"])) > Fraction(float(best["disorder"])) * (1 + TAU2) + TAU2:
